@@ -23,7 +23,7 @@ class Order(Enum):
     @staticmethod
     def merge(orders):
         orders = set(orders)
-        if orders == {Order.SAME}:
+        if not orders or orders == {Order.SAME}:
             return Order.SAME
         elif not (orders - {Order.LESS, Order.SAME}):
             return Order.LESS
